@@ -82,7 +82,8 @@ class Weighting(object):
 
     def __hash__(self):
         """Return ``hash(self)``."""
-        return hash((type(self), self.impl, self.exponent))
+        # `__eq__` does not compare types, hence the type must not enter here
+        return hash((self.impl, self.exponent))
 
     def equiv(self, other):
         """Test if ``other`` is an equivalent weighting.
